@@ -46,7 +46,8 @@ def call(I, name, args, e):
     # ---------------- size_of / default
     if n == 'core::mem::size_of':
         sz = e['generic_sizes'][0]
-        if sz is None: return ('call', 'size_of', ('a', e['generics'][0]))
+        if sz is None: sz = I.size_of_ty(e['generics'][0])
+        if sz is None: return ('call', 'size_of', ('a', I.resolve_ty(e['generics'][0])))
         return C(sz)
     if 'core::default::Default' in n and n.endswith('::default'):
         return default_value(I, ty, e)
@@ -58,7 +59,6 @@ def call(I, name, args, e):
     if n == 'alloc::vec::Vec::<T, A>::push':
         s = a0; v = args[1]
         if not isinstance(s, SeqV): return I.top('push on %r' % (s,), e)
-        if s.stores: return I.top('push after indexed store', e)
         if s.is_bytes():
             if not is_term(v): return I.top('push non-scalar byte', e)
             s.segs.append(('int', v, 1))
@@ -72,7 +72,7 @@ def call(I, name, args, e):
             if r is None: return I.top('extend_from_slice of unresolved sub-slice', e)
             s.segs.extend(r); return UNIT
         if not isinstance(s, SeqV) or not isinstance(src, SeqV): return I.top('extend_from_slice', e)
-        if src.stores or s.stores: return I.top('extend_from_slice with stores', e)
+        if src.stores: return I.top('extend_from_slice from a stored-to source', e)   # stores into the destination address earlier positions only
         s.segs.extend(src.segs); return UNIT
     if n == 'alloc::vec::Vec::<T, A>::append':
         s = a0; src = deref(args[1])
